@@ -102,7 +102,7 @@ Section Conf.
     match goal with A : beq (output_sep c) COLONB = true |- _ => apply beq_eq in A end.
     match goal with A : (len (conf_section c) + 1 <=? _) = true |- _ => apply N.leb_le in A end.
     repeat split; try assumption.
-    intros CC. match goal with A : negb (conf_cont c) || _ = true |- _ => rewrite CC in A; simpl in A; now apply list_eqb_eq in A end.
+    intros CC. match goal with A : negb (conf_cont c) || list_eqb (conf_cont_sep c) _ = true |- _ => rewrite CC in A; simpl in A; now apply list_eqb_eq in A end.
   Qed.
 
   Lemma name_known_facts n : name_known c n = true ->
@@ -205,6 +205,23 @@ Section Listing.
   Let IC : ini_inline_comment c = [SEMI] := proj1 (proj2 (ok_ini c OK)).
   Let SC : ini_start_comment c = [SEMI; HASH] := proj1 (ok_ini c OK).
 
+  Lemma is_space_SPACES b : memb b SPACES = is_space b.
+  Proof. destruct b; reflexivity. Qed.
+
+  Lemma has_inline_by_std ws inl v : (forall b, memb b ws = is_space b) -> forall w0, has_inline_by ws inl w0 v = has_inline inl w0 v.
+  Proof. intros H. induction v as [|b v IH]; intros w0; [reflexivity|]. simpl. now rewrite H, IH. Qed.
+
+  (** the continuation test of action-conf.c is the inline-comment scan of the parser *)
+  Lemma conf_line_eq r g : conf_line c r g = conf_line_std c r g.
+  Proof.
+    unfold conf_line, conf_line_std, uses_cont. destruct (row_type r); try reflexivity.
+    destruct (conf_cont c) eqn:CC; [|reflexivity]. cbn [andb].
+    pose proof OK as H. split_ok H.
+    match goal with A : negb (conf_cont c) || (same_set _ _ && _) = true |- _ => rewrite CC in A; cbn [negb orb] in A; apply andb_prop in A as [W M] end.
+    apply list_eqb_eq in M. rewrite M.
+    rewrite has_inline_by_std; [reflexivity|]. intros b. rewrite (same_set_memb _ _ b W). apply is_space_SPACES.
+  Qed.
+
   Definition row_events (g : cfg) (r : opt_row) : list event :=
     let v := render_option c (row_render r) g in
     if is_string r && uses_cont c v then [(SNOOPY, row_name r, []); (SNOOPY, row_name r, v)] else [(SNOOPY, row_name r, v)].
@@ -215,7 +232,7 @@ Section Listing.
   Lemma render_row g r : render_items (row_items c g r) = conf_line c r g.
   Proof.
     destruct (ok_conf c OK) as [_ [_ [_ [AS [Q [CS _]]]]]].
-    unfold row_items, conf_line, uses_cont. rewrite AS, Q.
+    rewrite conf_line_eq. unfold row_items, conf_line_std, uses_cont. rewrite AS, Q.
     destruct (row_type r); try (unfold render_items, render_line; list_norm; reflexivity).
     destruct (conf_cont c) eqn:CC; cbn [andb].
     - rewrite (CS eq_refl). destruct (has_inline (ini_inline_comment c) false (render_option c (row_render r) g));
@@ -332,7 +349,7 @@ Section Listing.
     - (* boolean *)
       destruct (plain_value_q v VF) as [A1 [A2 A3]]. cbn [andb] in FIT. cbn [app].
       apply wf_items_cons; [apply kv_wf; auto| |now rewrite PA].
-      unfold conf_line in FIT. rewrite T, AS in FIT. fold v in FIT. apply N.leb_le in FIT.
+      rewrite conf_line_eq in FIT. unfold conf_line_std in FIT. rewrite T, AS in FIT. fold v in FIT. apply N.leb_le in FIT.
       cbn [render_item quote]. len_norm. clear -FIT. lia.
     - (* string *)
       cbn [negb orb] in NI. unfold value_shape in VF. apply andb_prop in VF as [CL SH].
@@ -357,13 +374,12 @@ Section Listing.
           - unfold no_inline in NI. rewrite IC in NI. now apply negb_true_iff in NI. }
         cbn [andb] in FIT. cbn [app].
         apply wf_items_cons; [apply kv_wf; auto; now apply quoted_no_inline| |now rewrite PA].
-        unfold conf_line in FIT. rewrite T, AS, Q in FIT. fold v in FIT.
-        assert (UC' : (conf_cont c && has_inline (ini_inline_comment c) false v) = false) by exact UC. rewrite UC' in FIT.
+        rewrite conf_line_eq in FIT. unfold conf_line_std in FIT. rewrite T, AS, Q in FIT. fold v in FIT. rewrite UC in FIT.
         apply N.leb_le in FIT. cbn [render_item quote]. len_norm. clear -FIT. lia.
     - (* integer *)
       destruct (plain_value_q v VF) as [A1 [A2 A3]]. cbn [andb] in FIT. cbn [app].
       apply wf_items_cons; [apply kv_wf; auto| |now rewrite PA].
-      unfold conf_line in FIT. rewrite T, AS in FIT. fold v in FIT. apply N.leb_le in FIT.
+      rewrite conf_line_eq in FIT. unfold conf_line_std in FIT. rewrite T, AS in FIT. fold v in FIT. apply N.leb_le in FIT.
       cbn [render_item quote]. len_norm. clear -FIT. lia.
     - (* TNone: no registered row has it *)
       exfalso. destruct (row_parse r); simpl in TY; congruence.
